@@ -5,8 +5,10 @@
    plugins and the A/B splitting produce, as long as the resulting path is a contiguous chain of byte ranges over the
    *rewritten* text that starts at 0, ends at its length and cuts on character boundaries (`path_ok_b`; empty ranges are
    allowed), mapping it through the offset map of any reachable buffer state gives a partition of the *original* text.
-   That the real pipeline delivers such a chain (and reports exactly the mapped ranges) is checked on the implementation's
-   output by the correspondence run (check_c01), for all modes / plugin stacks / dictionaries generated there. *)
+   That the modelled pipeline (Lattice -> resolve_best_path -> path-rewrite plugins -> A/B split) delivers such a chain is
+   PROVED at the end of this file (C01_pipeline_partitions_original, Proofs/PipelineFull.v); that the real tokenizer reports
+   exactly these ranges is, in addition, checked on its output by the correspondence run (check_c01), for all modes /
+   plugin stacks / dictionaries / reuse sessions generated there. *)
 From Coq Require Import List NArith Arith.
 From Coq Require Import ZArith.
 From SudachiVerif Require Import Model.Buffer Proofs.BufferProofs Model.Lattice Proofs.PipelineProofs.
@@ -154,3 +156,38 @@ Theorem C01_pipeline_partitions_original :
              orig_slice s (fst (sbytes n)) (snd (sbytes n)) = Some (byte_slice o (map_range (m2o s) (sbytes n)))).
 Proof. exact (pipeline_partitions_original the_cfg C01_facts_ok). Qed.
 Print Assumptions C01_pipeline_partitions_original.
+
+(* the bridging hypothesis discharged: `ReachU` = reachable from an original that is the UTF-8 encoding of a code-point
+   list by well-formed batches whose replacement strings are UTF-8 encodings (InputEditor::replace_* take &str / char /
+   String).  Such a state's text is again a UTF-8 encoding: well-formed edits preserve validity *)
+Theorem C01_edits_preserve_utf8 :
+  forall t0 s, ReachU the_cfg (enc t0) s -> exists t, cur s = enc t.
+Proof. exact (reachU_utf8 the_cfg C01_facts_ok). Qed.
+Print Assumptions C01_edits_preserve_utf8.
+
+(* (c) without the bridging hypothesis: the code-point view t of the rewritten text exists, and for it the whole pipeline
+   (lattice -> best path -> rewrite plugins -> split in mode m under C09's well-formedness) partitions the original *)
+Theorem C01_pipeline_partitions_original_utf8 :
+  forall (conn : N -> N -> Z) t0 s,
+    ReachU the_cfg (enc t0) s ->
+    exists t, cur s = enc t /\
+    forall ns r i c,
+      nodes_ok (nchars (cur s)) ns -> (0 < nchars (cur s))%nat ->
+      connect_eos conn (insert_all conn (reset (nchars (cur s))) ns) = Some (r, i, c) ->
+      exists es p,
+        top_path conn (insert_all conn (reset (nchars (cur s))) ns) = Some es /\
+        map enode es = map Some p /\ path_cost conn p = c /\
+        forall pr pls q ps hw key ua ub m,
+          Forall2 (rnode_of (cur s)) p pr ->
+          Rewrite.run_plugins pls pr = Some (Rewrite.Ok q) ->
+          Forall2 snode_of q ps ->
+          Split.split_facts_ok = true -> mode_wf hw key t ua ub m ps ->
+          exists final,
+            Split.tokenize_mode hw t ua ub m ps = Some final /\
+            let ranges := map (map_range (m2o s)) (map sbytes final) in
+            partition_b (enc t0) ranges = true /\
+            concat (map (byte_slice (enc t0)) ranges) = enc t0 /\
+            (forall n, In n final ->
+               orig_slice s (fst (sbytes n)) (snd (sbytes n)) = Some (byte_slice (enc t0) (map_range (m2o s) (sbytes n)))).
+Proof. exact (pipeline_partitions_original_utf8 the_cfg C01_facts_ok). Qed.
+Print Assumptions C01_pipeline_partitions_original_utf8.
